@@ -58,6 +58,7 @@ Track == {DAs(m, o) : o \in {0, 2, -1},
                              << <<0, 1>>, <<2, 3>> >>, << <<0, 5>> >>, << <<5, 0>> >>, << <<-1, 0>> >>}}
 
 Stats == {DMean(t) : t \in {0, 2, 3}} \cup {DVariance(t) : t \in {0, 1, 2, 8}}
+    \cup {DStd(t) : t \in {0, 1, 2, 3, 4}}            \* with_std(0 / 0.5 / 1 / 1.5 / 2): variance 0 / 0.25 / 1 / 2.25 / 4
     \cup {DSpread(t) : t \in {0, 2, 3, 4}} \cup {DNormalized(t) : t \in {2, 4, 0, -2}}
 
 Rewrite ==
@@ -93,5 +94,5 @@ SDecs == {DBounds(IvOne, All, 1, 1, 0), DDiscrete(<<0, 2, 4>>, <<0, 1>>), DInteg
           DMonotonic(1, 0, All, 0), DSorting(0, 0, <<0, 2>>, 0), DAt(<<1>>, 3),
           DAs(<< <<0, 1>>, <<1, 2>> >>, 2), DAs(<< <<2, 1>>, <<1, 0>> >>, NONE), DAs(<< <<0, 2>>, <<1, 2>> >>, -1),
           DPartial(<< <<0, -1>> >>), DSync(<< <<1, 0, 0>> >>), DClipped(-1, 2, 0, 0), DSuppressed(2, 0, 0),
-          DMean(2)}
+          DMean(2), DStd(2)}
 =============================================================================
